@@ -168,6 +168,7 @@ type fnTrans struct {
 	allowedDone   bool
 	seqFacts      []Term
 	curUses       []Term
+	spawned       map[string]*FuncContract // contracts of the functions started with `go` in this function
 	cellFn        map[string]cellFnRec // local cells that hold a statically known closure (assigned exactly once)
 }
 
@@ -1150,6 +1151,7 @@ func (t *fnTrans) pass() {
 	t.inl, t.inlSeq, t.inlStack = nil, 0, nil
 	t.callSeq = 0
 	t.cellFn = nil
+	t.spawned = nil
 	t.allowedDone, t.allowed, t.allowedAll = false, nil, false
 	t.S.decls, t.S.declared, t.S.axioms = nil, map[string]bool{}, nil
 	t.S.strLits, t.S.strOrder = map[string]string{}, nil
@@ -1432,6 +1434,18 @@ func (t *fnTrans) loopEdge(b *ssa.BasicBlock, si int, li *loopInfo, back bool) {
 		t.oblige("invariant", fmt.Sprintf("loop%d.%s.%s", li.ordinal, nm, which), c.Src, fmt.Sprintf("(=> %s %s)", cond, inv), b.Instrs[len(b.Instrs)-1].Pos())
 	}
 	t.curUses = nil
+	if back {
+		// `backedge` clauses: checked when control returns to the head, never assumed there
+		for i, c := range li.spec.BackEdges {
+			nm := c.Name
+			if nm == "" {
+				nm = fmt.Sprint(i)
+			}
+			t.curUses = t.evalUses(c.Uses, env)
+			t.oblige("invariant", fmt.Sprintf("loop%d.backedge.%s", li.ordinal, nm), c.Src, fmt.Sprintf("(=> %s %s)", cond, env.boolOf(c.Expr)), b.Instrs[len(b.Instrs)-1].Pos())
+		}
+		t.curUses = nil
+	}
 	if back && li.spec.Decreases != nil {
 		m1, _ := env.eval(li.spec.Decreases.Expr)
 		m0 := t.decMeasure[li.header.Index]
